@@ -17,6 +17,7 @@ def main():
         sys.exit(2)
     replay = None
     if a.replay:
+        os.environ['VERIF_REPLAY'] = '1'      # a replay re-runs one case: its evidence goes to .scratch/evidence
         payload = json.load(open(a.replay))
         replay = payload.get('failure', {}).get('case', payload)
     try:
